@@ -339,6 +339,12 @@ func concretise(class string, me string, seq int, rng *rand.Rand) []byte {
 		return ruJSON(me, seq, id, map[string]string{"ForwardingNode": `"victim"`})
 	case "route_other_fwd":
 		return ruJSON(me, seq, id, map[string]string{"ForwardingNode": fmt.Sprintf("%q", me+"x")})
+	case "route_good_fwd":
+		return ruJSON("good", seq+50, id, nil)
+	case "route_good_fwd_me":
+		return ruJSON(me, seq, id, map[string]string{"ForwardingNode": `"good"`})
+	case "route_good_origin":
+		return ruJSON(me, seq, id, map[string]string{"NodeID": `"good"`, "Connections": "{}", "UpdateSequence": fmt.Sprint(seq + 50)})
 	case "ad_notjson":
 		return append([]byte{2}, rb(30)...)
 	case "ad_null":
